@@ -6,10 +6,30 @@ from vf import rustsrc as rs
 F = "src/router.rs"
 P = "Tracked(&mut *p)"
 
-R_LOCK = Rule("D17", r"let (?:mut )?comm = self\.comm\.lock\(\)\.unwrap\(\);", "let comm = &mut *comm_guard; ghost_set_locked(true, Tracked(&mut *p));",
-              "mutex elimination: the guard becomes an exclusive borrow passed in (poisoning not modelled)", min_count=1)
-R_MSG = AppendArg("B30", r"comm\s*\.msg_sender\s*\.send\(", P, "crossbeam sender stub over the ghost world", min_count=1)
-R_WAKE = AppendArg("B31", r"comm\s*\.wakeup_sender\s*\.send\(", P, "ipc wake-up sender stub", min_count=1)
+class LockGuard(Rule):
+    """D17: `let comm = self.comm.lock().unwrap();` -> `let comm = &mut *comm_guard; ghost_set_locked(true, p);` (mutex elimination:
+    the guard becomes an exclusive borrow passed in; poisoning not modelled).  A guard taken inside an inner block
+    (`let x = { let comm = ..lock()..; ..; value };`) is released where that block ends: `ghost_set_locked(false, p);` is
+    inserted after the statement the block belongs to."""
+    def __init__(self):
+        Rule.__init__(self, "D17", r"let (?:mut )?comm = self\.comm\.lock\(\)\.unwrap\(\);", "", "mutex elimination", min_count=1)
+
+    def custom(self, src, m, item, in_skip):
+        from vf.gen import _enclosing_open
+        out = []
+        for x in self.regex.finditer(m, item.body_open, item.body_close):
+            out.append(Edit(x.start(), x.end(), "let comm = &mut *comm_guard; ghost_set_locked(true, Tracked(&mut *p));", "rule", "D17"))
+            eo = _enclosing_open(m, x.start(), item.body_open)
+            if eo > item.body_open:                       # the guard lives in an inner block
+                ec = rs.match_close(m, eo)
+                semi = rs.depth0_find(m, ec + 1, item.body_close, lambda mm_, i: mm_[i] == ";")
+                if semi > 0 and m[ec + 1:semi].strip() == "":
+                    out.append(Edit(semi + 1, semi + 1, " ghost_set_locked(false, Tracked(&mut *p)); /* D17: guard dropped at the end of its block */", "rule", "D17"))
+        return out
+
+R_LOCK = LockGuard()
+R_MSG = AppendArg("B30", r"\bmsg_sender\s*\.send\(", P, "crossbeam sender stub over the ghost world", min_count=1)
+R_WAKE = AppendArg("B31", r"\bwakeup_sender\s*\.send\(", P, "ipc wake-up sender stub", min_count=1)
 R_UNLOCK = Rule("D17b", r"\bdrop\(comm\);", "ghost_set_locked(false, Tracked(&mut *p));", "dropping the guard releases the mutex (ghost flag)")
 R_ACK = AppendArg("B32", r"ack_receiver\.recv\(", P, "acknowledgement receiver stub")
 
@@ -81,6 +101,8 @@ UNIT = Unit(
     groups=[("impl RouterProxy", [add_route, shutdown]), (None, [forward])],
     props=["C07", "C16", "C17"],
     prelude_clauses={
+        "router.proxy/requires.message_sent_under_the_proxy_mutex": ["C17", "C07"],
+        "router.proxy/requires.wakeup_sent_under_the_proxy_mutex": ["C17", "C07"],
         "router.shutdown/requires.ack_awaited_only_after_the_shutdown_message": ["C17"],
         "router.shutdown/requires.wakeup_send_unwrap": ["C17"],
         "router.shutdown/requires.mutex_held_while_waiting_for_the_ack": ["C17"],
